@@ -123,7 +123,7 @@ def gen_asset(rng, name, years, ne, nh, mixed):
                 row = {"ts": ts, "from_exch": acct[0], "from_holder": acct[1], "to_exch": to[0], "to_holder": to[1],
                        "spot": rng.choice(PRICES), "crypto_sent": sent, "crypto_received": sent - fee}
                 if fee > 0 and rng.chance(2):
-                    fee, row["spot"], row["crypto_received"] = 1, 1000, sent - 1       # dust fee: worth 1e-19 yen (finding F14)
+                    fee, row["spot"], row["crypto_received"] = 1, 1000, sent - 1       # dust: the lost amount is worth 1e-19 yen (F14)
                 if fee == 0 and rng.chance(50):
                     row["spot"] = None if rng.chance(50) else 0
                 intras.append(row)
@@ -477,6 +477,18 @@ def extraction_cross_check(cases, results):
     }
     out = []
     for (name, m), res in zip(cases, results):
+        if name == "f14-dust-transfer-fee.json" and res.get("stage") in ("computed", "generated"):
+            # Proofs/JpRefuted.v refuted_dust_fee_crash: guard on the yen value -> Err EValue; guard on the lost amount -> row 22 = 1e-11 units, 1e-19 yen
+            r82, r81 = core.run_model([model_line(82, m, fracs_of(res)), model_line(81, m, fracs_of(res))])
+            if r82 != [5]:
+                out.append(f"{name}: extracted model cmd 82 answers {r82[:3]}, vm_compute in Coq gives Err EValue")
+            sheets = l5.decode_report(r81, 1) if r81[0] == 0 else []
+            cells = l5.final_cells(sheets[1]["writes"]) if len(sheets) == 2 else {}
+            got = [cells.get((22, c)) for c in (6, 7)]
+            if [s["name"] for s in sheets] != ["2019_Summary", "BTC_2019"] or not all(g and g[0] == "num" for g in got) \
+                    or [l5.dec_of(g[1], g[2]) for g in got] != [Decimal("1e-11"), Decimal("1e-19")]:
+                out.append(f"{name}: extracted model cmd 81 gives {[s['name'] for s in sheets]} / {got}, vm_compute in Coq gives row 22 = 1e-11 units, 1e-19 yen")
+            continue
         if name not in want or res.get("stage") not in ("computed", "generated"):
             continue
         for cmd, (names, cells) in want[name].items():
@@ -496,8 +508,8 @@ def extraction_cross_check(cases, results):
 
 def load_corpus():
     out = []
-    # corpus first (incl. the replays of the fixed defect F5), then the replay of the known finding F14 (must still fail)
-    for p in sorted(glob.glob(os.path.join(CORPUS, "*.json"))) + [os.path.join(core.VERIF, "findings", "F14.json")]:
+    # corpus first (incl. the replays of the fixed defects F5 and F14)
+    for p in sorted(glob.glob(os.path.join(CORPUS, "*.json"))):
         with open(p, encoding="utf-8") as f:
             out.append((os.path.basename(p), json.load(f)["case"]))
     return out
@@ -540,9 +552,9 @@ def run(tier, build, replay=None):
             if res["err"] == "RP2RuntimeError" and "from-and-to" in fs:
                 pass                                            # F7: deliberate restriction, outside the property (C16)
             elif res["err"] == "ValueError" and "dust-transfer-fee" in fs and "invalid value: None" in res.get("msg", ""):
-                out.violation(f"{name}: the report generator crashes ({res['err']}: {res.get('msg')}): a transfer whose fee is worth less than 5e-14 yen "
-                              "has a sold amount but no yen value, and the writer hands None to the spreadsheet library", rep,
-                              tags={"dust-transfer-fee-crash"})
+                out.violation(f"{name}: no report is written, the generator crashes ({res['err']}: {res.get('msg')}): a transfer that lost an amount worth "
+                              "less than 5e-14 yen has a sold amount but no yen value, and the writer hands None to the spreadsheet library; "
+                              "the year's transactions are listed nowhere", rep, tags={"dust-transfer-fee-crash", "generator-error"})
             else:
                 out.violation(f"{name}: the report generator fails on a valid input: {res['err']}: {res.get('msg')}", rep, tags={"generator-error"})
         else:
@@ -572,8 +584,8 @@ def run(tier, build, replay=None):
         "cells_compared": cells_compared,
         "input_features": feats,
         "generator_errors": errors,
-        "extraction_cross_check": "the two F5 witnesses: extracted model (cmd 81 / 82) = vm_compute inside Coq (Proofs/JpRefuted.v): " + ("agree" if not xcheck else "DIFFER"),
-        "source_flags": {"years_sorted / previous_existing_year as read by the translator": build.translator.get("jp_report")},
+        "extraction_cross_check": "the F5 and F14 witnesses: extracted model (cmd 81 / 82) = vm_compute inside Coq (Proofs/JpRefuted.v): " + ("agree" if not xcheck else "DIFFER"),
+        "source_flags": {"years_sorted / previous_existing_year / intra_yen_guard_on_crypto as read by the translator": build.translator.get("jp_report")},
     })
     out.assumptions = [
         "yen values are amount x spot price of the row (the writer ignores exchange-supplied fiat columns); income-typed acquisitions also show a sale of 0 units worth the acquisition; "
